@@ -20,6 +20,9 @@
 EXTENDS BlockLifecycle, TLC, Json, IOUtils, SequencesExt
 CONSTANTS N,            \* local blocks 1..N (1 = oldest)
           MaxCrashes, MaxFails,
+          Features,     \* which environment actions are explored in this configuration, subset of
+                        \* {"crash", "fail", "prune", "late"} (two configurations per tier keep the state
+                        \* space a sum instead of a product: crash+fail, and crash+prune+late)
           MtLen,                 \* leg B (phase 2): MultiTSDB scenarios: all op sequences up to MtLen (0 = the fixed shapes only)
           CaseN, CaseCrashes, CasePre, CaseKinds  \* leg B: blocks / crash points / pre-states / kinds per generated case
 
@@ -57,7 +60,7 @@ Init == /\ kind \in [Blocks -> Kinds] /\ uc \in BOOLEAN /\ ooo \in BOOLEAN
         /\ last = "none" /\ crashes = 0 /\ fails = 0
         /\ everComplete = CompleteBlocks(bkt, ListedNow(bkt))
         /\ pruned = FALSE /\ localGone = {}
-        /\ there \in ({Blocks} \cup { Blocks \ {b} : b \in Blocks }) /\ dirAtSync = {}     \* at most one block appears late
+        /\ there \in (IF "late" \in Features THEN {Blocks} \cup { Blocks \ {b} : b \in Blocks } ELSE {Blocks}) /\ dirAtSync = {}     \* at most one block appears late
 
 SyncStart == /\ pc = "idle"
              /\ has' = file.uploaded
@@ -99,14 +102,14 @@ WriteFile == /\ pc = "loop" /\ i > N
              /\ UNCHANGED <<bkt, i, has, upl, uerrs, crashes, fails, everComplete>> /\ Const /\ LocalKeep
 
 (* a bucket call fails: Exists -> Sync returns the error at once; an upload call -> block.Upload fails *)
-Fail == /\ fails < MaxFails /\ pc \in {"exists", "up_seg", "up_idx", "up_meta"}
+Fail == /\ "fail" \in Features /\ fails < MaxFails /\ pc \in {"exists", "up_seg", "up_idx", "up_meta"}
         /\ fails' = fails + 1
         /\ IF pc = "exists" \/ ~ooo
              THEN pc' = "idle" /\ last' = "err" /\ UNCHANGED <<i, uerrs>>
              ELSE pc' = "loop" /\ i' = i + 1 /\ uerrs' = uerrs + 1 /\ UNCHANGED last
         /\ UNCHANGED <<bkt, file, has, upl, crashes, everComplete>> /\ Const /\ LocalKeep
 
-Crash == /\ crashes < MaxCrashes /\ pc # "idle"
+Crash == /\ "crash" \in Features /\ crashes < MaxCrashes /\ pc # "idle"
          /\ crashes' = crashes + 1 /\ pc' = "idle" /\ last' = "none"
          /\ i' = 0 /\ has' = {} /\ upl' = {} /\ uerrs' = 0
          /\ UNCHANGED <<bkt, file, fails, everComplete>> /\ Const /\ LocalKeep
@@ -116,15 +119,15 @@ Crash == /\ crashes < MaxCrashes /\ pc # "idle"
 (* still on disk is listed in the shipper file (idleness and "head compaction ran" are abstracted into     *)
 (* the action being enabled at any time, also in the middle of a Sync: it only takes a read lock).         *)
 AllRecorded == \A b \in there \ localGone : b \in file.uploaded
-Prune == /\ ~pruned /\ AllRecorded /\ pruned' = TRUE
+Prune == /\ "prune" \in Features /\ ~pruned /\ AllRecorded /\ pruned' = TRUE
          /\ UNCHANGED <<bkt, file, pc, i, has, upl, uerrs, last, crashes, fails, everComplete, localGone, there, dirAtSync>> /\ Const
 (* tenant.blocksToDelete: the TSDB retention may delete a local block only if the shipper file lists it *)
-LocalRetention == /\ ~pruned
+LocalRetention == /\ "prune" \in Features /\ ~pruned
                   /\ \E b \in there \ localGone : b \in file.uploaded /\ localGone' = localGone \cup {b}
                   /\ UNCHANGED <<bkt, file, pc, i, has, upl, uerrs, last, crashes, fails, everComplete, pruned, there, dirAtSync>> /\ Const
 
 (* a block shows up in the directory later than (possibly newer) blocks that are already shipped *)
-Appear == /\ ~pruned /\ \E b \in Blocks \ there : there' = there \cup {b}
+Appear == /\ "late" \in Features /\ ~pruned /\ \E b \in Blocks \ there : there' = there \cup {b}
           /\ UNCHANGED <<bkt, file, pc, i, has, upl, uerrs, last, crashes, fails, everComplete, pruned, localGone, dirAtSync>> /\ Const
 
 Step == SyncStart \/ Loop \/ Exists \/ Overlap \/ UpSeg \/ UpIdx \/ UpMeta \/ WriteFile
